@@ -29,11 +29,12 @@ const (
 	CutBody
 	SlowBody
 	LongLine
+	OtherSuccess
 	numFaults
 )
 
 // Names of the fault kinds.
-var Names = [...]string{"ok", "conn-error", "stall", "404", "500", "empty-body", "oversized", "cut-body", "slow-body", "long-line"}
+var Names = [...]string{"ok", "conn-error", "stall", "404", "500", "empty-body", "oversized", "cut-body", "slow-body", "long-line", "other-2xx"}
 
 // Origin serves resources by URL path.
 type Origin struct {
@@ -79,7 +80,7 @@ func (o *Origin) RoundTrip(req *http.Request) (resp *http.Response, err error) {
 	o.Requests = append(o.Requests, path+" "+Names[f])
 	o.mu.Unlock()
 
-	noLen := f != ConnError && f != Stall && f != NotFound && f != ServerError && o.NoLength != nil && o.NoLength(path)
+	noLen := f != ConnError && f != Stall && f != NotFound && f != ServerError && f != OtherSuccess && o.NoLength != nil && o.NoLength(path)
 	mk := func(code int, body io.ReadCloser, n int64) *http.Response {
 		if noLen {
 			n = -1
@@ -127,6 +128,17 @@ func (o *Origin) RoundTrip(req *http.Request) (resp *http.Response, err error) {
 		}
 
 		return mk(http.StatusOK, &cutReader{data: []byte(content[:k])}, int64(len(content))), nil
+	case OtherSuccess:
+		// A status of the success class that is not 200, with a body that is
+		// not the resource: a part of it (206), a proxy's version (203), a
+		// placeholder (202).
+		code := []int{http.StatusPartialContent, http.StatusNonAuthoritativeInfo, http.StatusAccepted}[param%3]
+		body := content[:len(content)/2]
+		if code == http.StatusAccepted {
+			body = "accepted, come back later\n"
+		}
+
+		return mk(code, plain(body), int64(len(body))), nil
 	case LongLine:
 		// The whole resource followed by one line of param octets, as a
 		// minified error page or a broken export has them.
